@@ -339,9 +339,10 @@ RECIPES["C09"] = {
          "flags": ["--sat-solver", "cadical"], "timeout": 600},
         {"name": "fmt_long", "src": ["C09_fmt.c"] + IAUTH, "gen": _gen_formats.gen,
          "defs": {"all": {"LSTR": 2, "LADDR": 3, "LONG": None}},
-         "splits": {"all": [{"_name": "k", "VP_WHICH": "FMT_INDEX_KILL"}, {"_name": "X", "VP_WHICH": "FMT_INDEX_XQUERY"}]},
+         # (the same query for "k :%s" with a request prefix runs out of memory at 20 GB and is not run)
+         "splits": {"all": [{"_name": "X", "VP_WHICH": "FMT_INDEX_XQUERY"}]},
          "unwind": 2300, "unwindset": ["vpm_num.0:22", "vpm_num.1:24", "vpm_num.2:24", "vpm_num.3:24"],
-         "flags": ["--sat-solver", "cadical"], "timeout": 900},
+         "flags": ["--sat-solver", "cadical"], "timeout": 900, "mem_gb": 16},
     ],
 }
 
